@@ -1,6 +1,7 @@
 import DaskModel.Lemmas.ArrayReduce
 import DaskModel.Lemmas.BlockScan
 import DaskModel.Lemmas.BlellochTable
+import Mathlib.Tactic.SplitIfs
 /-!
 # C22 — array reductions and scans equal NumPy for every chunking and `split_every`
 
@@ -142,6 +143,303 @@ example : redSum.run1 2 3 [[1, 2], [3], [4, 5, 6], [], [7]] = some [28] :=
   sum_eq_numpy 2 3 (by decide) _ (by simp) (by decide)
 example : redMean.run1 2 2 [[1, 2], [], [3]] = some [(6, 3)] :=
   mean_eq_numpy 2 2 (by decide) _ (by simp) (by decide)
+
+/-! ## min / max (with dask's empty-chunk rule) -/
+
+/-- fold of a non-empty list, `none` for `[]` (`imin? = optFold min`, `imax? = optFold max`) -/
+def optFold (op : Int → Int → Int) : List Int → Option Int
+  | [] => none
+  | x :: xs => some (xs.foldl op x)
+
+def omerge (op : Int → Int → Int) : Option Int → Option Int → Option Int
+  | none, b => b
+  | a, none => a
+  | some a, some b => some (op a b)
+
+theorem imin?_eq : imin? = optFold min := by funext xs; cases xs <;> rfl
+theorem imax?_eq : imax? = optFold max := by funext xs; cases xs <;> rfl
+
+theorem optFold_append (op : Int → Int → Int) (assoc : ∀ a b c, op (op a b) c = op a (op b c))
+    (xs ys : List Int) : optFold op (xs ++ ys) = omerge op (optFold op xs) (optFold op ys) := by
+  cases xs with
+  | nil =>
+    show optFold op ys = omerge op none (optFold op ys)
+    cases optFold op ys <;> rfl
+  | cons x xs =>
+    cases ys with
+    | nil => simp [optFold, omerge]
+    | cons y ys =>
+      simp only [optFold, omerge, List.cons_append, List.foldl_append, List.foldl_cons]
+      rw [foldl_assoc op assoc]
+
+theorem optFold_toList (op : Int → Int → Int) (xs : List Int) :
+    optFold op (optFold op xs).toList = optFold op xs := by
+  cases xs <;> simp [optFold]
+
+/-- dropping to per-group minima first does not change the minimum (empty groups contribute nothing) -/
+theorem optFold_parts (op : Int → Int → Int) (assoc : ∀ a b c, op (op a b) c = op a (op b c))
+    (ls : List (List Int)) :
+    optFold op ((ls.map fun l => (optFold op l).toList).flatten) = optFold op ls.flatten := by
+  induction ls with
+  | nil => rfl
+  | cons l ls ih =>
+    simp only [List.map_cons, List.flatten_cons]
+    rw [optFold_append op assoc, optFold_append op assoc, ih, optFold_toList]
+
+theorem hom_minmax (op : Int → Int → Int) (assoc : ∀ a b c, op (op a b) c = op a (op b c)) :
+    Hom (fun ps : List (List Int) => (optFold op ps.flatten).toList)
+        (fun ps : List (List Int) => (optFold op ps.flatten).toList) ∧
+    Hom (fun ps : List (List Int) => (optFold op ps.flatten).toList)
+        (fun ps : List (List Int) => optFold op ps.flatten) := by
+  constructor
+  · intro gs _ _
+    show (optFold op ((gs.map fun g => (optFold op g.flatten).toList).flatten)).toList = _
+    have := optFold_parts op assoc (gs.map List.flatten)
+    simp only [List.map_map, Function.comp_def] at this
+    rw [this]
+    show (optFold op (gs.map List.flatten).flatten).toList = (optFold op gs.flatten.flatten).toList
+    rw [List.flatten_flatten]
+  · intro gs _ _
+    show optFold op ((gs.map fun g => (optFold op g.flatten).toList).flatten) = _
+    have := optFold_parts op assoc (gs.map List.flatten)
+    simp only [List.map_map, Function.comp_def] at this
+    rw [this]
+    show optFold op (gs.map List.flatten).flatten = optFold op gs.flatten.flatten
+    rw [List.flatten_flatten]
+
+/-- `da.min` = `np.min` of the concatenated data for every blocking — blocks may be empty (dask's
+    `chunk_min` rule); the result is `none` (NumPy raises) exactly when there is no data at all. -/
+theorem min_eq_numpy (k depth : Nat) (hk : k ≠ 0) (blocks : List (List Int)) (hne : blocks ≠ [])
+    (hd : blocks.length ≤ k ^ depth) :
+    redMin.run1 k depth blocks = some [imin? blocks.flatten] := by
+  obtain ⟨h1, h2⟩ := hom_minmax min (fun a b c => Int.min_assoc a b c)
+  have e : redMin = ⟨fun b => some ((optFold min b).toList), fun ps => (optFold min ps.flatten).toList,
+      fun ps => optFold min ps.flatten⟩ := by
+    simp [redMin, minPart, imin?_eq]
+  rw [e, run1_eq _ (fun b => (optFold min b).toList) rfl h1 h2 k depth hk blocks hne hd]
+  show some [optFold min ((blocks.map fun b => (optFold min b).toList).flatten)] = _
+  rw [optFold_parts min (fun a b c => Int.min_assoc a b c), imin?_eq]
+
+theorem max_eq_numpy (k depth : Nat) (hk : k ≠ 0) (blocks : List (List Int)) (hne : blocks ≠ [])
+    (hd : blocks.length ≤ k ^ depth) :
+    redMax.run1 k depth blocks = some [imax? blocks.flatten] := by
+  obtain ⟨h1, h2⟩ := hom_minmax max (fun a b c => Int.max_assoc a b c)
+  have e : redMax = ⟨fun b => some ((optFold max b).toList), fun ps => (optFold max ps.flatten).toList,
+      fun ps => optFold max ps.flatten⟩ := by
+    simp [redMax, maxPart, imax?_eq]
+  rw [e, run1_eq _ (fun b => (optFold max b).toList) rfl h1 h2 k depth hk blocks hne hd]
+  show some [optFold max ((blocks.map fun b => (optFold max b).toList).flatten)] = _
+  rw [optFold_parts max (fun a b c => Int.max_assoc a b c), imax?_eq]
+
+/-- non-vacuity: an empty block in the middle; an all-empty array raises -/
+example : redMin.run1 2 2 [[4, 2], [], [7]] = some [some 2] :=
+  min_eq_numpy 2 2 (by decide) _ (by simp) (by decide)
+example : redMin.run1 2 1 [[], []] = some [none] :=
+  min_eq_numpy 2 1 (by decide) _ (by simp) (by decide)
+
+/-- arg-reductions raise on an empty block (finding `arg:zero-length-chunk-on-reduced-axis`):
+    `arg_chunk` has no neutral element -/
+theorem arg_empty_block_raises (lt : Int → Int → Bool) (bs off tot : List Nat) :
+    argChunk lt bs off tot [] = none := rfl
+
+/-! ## arg-reductions: first occurrence of the extremum, for every chunking (1-d / raveled order) -/
+
+/-- the merge used by `_arg_combine` (after the tie fix): better value, or equal value and smaller index -/
+def better (lt : Int → Int → Bool) (b q : Int × Nat) : Int × Nat :=
+  if lt q.1 b.1 || (q.1 == b.1 && decide (q.2 < b.2)) then q else b
+
+theorem argCombine_cons (lt : Int → Int → Bool) (p : Int × Nat) (ps : List (Int × Nat)) :
+    argCombine lt (p :: ps) = some (ps.foldl (better lt) p) := rfl
+
+def ltMin : Int → Int → Bool := fun a b => decide (a < b)
+def ltMax : Int → Int → Bool := fun a b => decide (a > b)
+
+theorem better_assoc_min (a b c : Int × Nat) :
+    better ltMin (better ltMin a b) c = better ltMin a (better ltMin b c) := by
+  obtain ⟨a1, a2⟩ := a; obtain ⟨b1, b2⟩ := b; obtain ⟨c1, c2⟩ := c
+  simp only [better, ltMin, Bool.or_eq_true, Bool.and_eq_true, decide_eq_true_eq, beq_iff_eq]
+  split_ifs <;> simp only [Prod.mk.injEq] <;> omega
+
+theorem better_assoc_max (a b c : Int × Nat) :
+    better ltMax (better ltMax a b) c = better ltMax a (better ltMax b c) := by
+  obtain ⟨a1, a2⟩ := a; obtain ⟨b1, b2⟩ := b; obtain ⟨c1, c2⟩ := c
+  simp only [better, ltMax, Bool.or_eq_true, Bool.and_eq_true, decide_eq_true_eq, beq_iff_eq, gt_iff_lt]
+  split_ifs <;> simp only [Prod.mk.injEq] <;> omega
+
+/-- the combine/aggregate function of the arg tree as the driver runs it -/
+def argComb (lt : Int → Int → Bool) (ps : List (Int × Nat)) : Int × Nat := (argCombine lt ps).getD (0, 0)
+
+theorem argComb_eq_sfold (lt : Int → Int → Bool) : argComb lt = sfold (better lt) (0, 0) := by
+  funext ps; cases ps <;> rfl
+
+/-- the arg merge is a semigroup fold: the winner does not depend on how the tree groups the candidates -/
+theorem hom_argComb_min : Hom (argComb ltMin) (argComb ltMin) := by
+  rw [argComb_eq_sfold]; exact hom_sfold _ _ better_assoc_min
+theorem hom_argComb_max : Hom (argComb ltMax) (argComb ltMax) := by
+  rw [argComb_eq_sfold]; exact hom_sfold _ _ better_assoc_max
+
+/-- candidates of a block: its elements with their global indices -/
+def enumFrom (k : Nat) : List Int → List (Int × Nat)
+  | [] => []
+  | x :: xs => (x, k) :: enumFrom (k + 1) xs
+
+theorem enumFrom_append (k : Nat) (xs ys : List Int) :
+    enumFrom k (xs ++ ys) = enumFrom k xs ++ enumFrom (k + xs.length) ys := by
+  induction xs generalizing k with
+  | nil => simp [enumFrom]
+  | cons x xs ih => simp only [List.cons_append, enumFrom, ih, List.length_cons]; congr 3; omega
+
+/-- `argBest` (NumPy's argmin/argmax on one block: strict improvement only, so the first occurrence wins)
+    is the `better`-fold over the indexed elements -/
+theorem argBest_go_eq (lt : Int → Int → Bool) :
+    ∀ (ys : List Int) (best : Int) (bi i : Nat), bi < i →
+      argBest.go lt best bi i ys = (enumFrom i ys).foldl (better lt) (best, bi) ∧
+      (argBest.go lt best bi i ys).2 < i + ys.length := by
+  intro ys
+  induction ys with
+  | nil => intro best bi i h; exact ⟨rfl, by simpa [argBest.go] using h⟩
+  | cons y ys ih =>
+    intro best bi i h
+    simp only [argBest.go, enumFrom, List.foldl_cons, List.length_cons]
+    by_cases hlt : lt y best = true
+    · have hb : better lt (best, bi) (y, i) = (y, i) := by simp [better, hlt]
+      rw [if_pos hlt, hb]
+      obtain ⟨h1, h2⟩ := ih y i (i + 1) (by omega)
+      exact ⟨h1, by omega⟩
+    · have hb : better lt (best, bi) (y, i) = (best, bi) := by
+        have : ¬ (i < bi) := by omega
+        simp [better, hlt, this]
+      rw [if_neg hlt, hb]
+      obtain ⟨h1, h2⟩ := ih best bi (i + 1) (by omega)
+      exact ⟨h1, by omega⟩
+
+theorem argBest_eq (lt : Int → Int → Bool) (xs : List Int) :
+    argBest lt xs = argCombine lt (enumFrom 0 xs) := by
+  cases xs with
+  | nil => rfl
+  | cons x xs =>
+    simp only [argBest, enumFrom, argCombine_cons]
+    exact congrArg some (argBest_go_eq lt xs x 0 1 (by omega)).1
+
+/-- shifting all indices by `off` commutes with the merge -/
+theorem foldl_better_shift (lt : Int → Int → Bool) (off : Nat) :
+    ∀ (ys : List Int) (b : Int × Nat) (i : Nat),
+      (enumFrom (off + i) ys).foldl (better lt) (b.1, off + b.2)
+        = (((enumFrom i ys).foldl (better lt) b).1, off + ((enumFrom i ys).foldl (better lt) b).2) := by
+  intro ys
+  induction ys with
+  | nil => intro b i; rfl
+  | cons y ys ih =>
+    intro b i
+    simp only [enumFrom, List.foldl_cons]
+    have hb : better lt (b.1, off + b.2) (y, off + i) = ((better lt b (y, i)).1, off + (better lt b (y, i)).2) := by
+      unfold better
+      have : (off + i < off + b.2) = (i < b.2) := by simp
+      simp only [this]
+      split <;> rfl
+    rw [hb, show off + i + 1 = off + (i + 1) by omega]
+    exact ih (better lt b (y, i)) (i + 1)
+
+/-- `arg_chunk` on a 1-d block at offset `off`: value and *global* index of the block's first extremum -/
+def argChunk1 (lt : Int → Int → Bool) (off : Nat) (b : List Int) : Option (Int × Nat) :=
+  (argBest lt b).map fun p => (p.1, off + p.2)
+
+theorem argChunk1_eq (lt : Int → Int → Bool) (off : Nat) (b : List Int) :
+    argChunk1 lt off b = argCombine lt (enumFrom off b) := by
+  cases b with
+  | nil => rfl
+  | cons x xs =>
+    simp only [argChunk1, argBest_eq, enumFrom, argCombine_cons, Option.map_some]
+    have := foldl_better_shift lt off xs (x, 0) 1
+    simp only [Nat.add_zero] at this
+    rw [show off + 1 = off + 1 from rfl] at this
+    exact congrArg some this.symm
+
+/-- the model's `arg_chunk` (with `unravel`/`ravel_multi_index` offsets) is that function for 1-d arrays -/
+theorem argChunk_1d (lt : Int → Int → Bool) (off n : Nat) (b : List Int) :
+    argChunk lt [b.length] [off] [n] b = argChunk1 lt off b := by
+  unfold argChunk argChunk1
+  congr 1
+  funext p
+  simp [unravel, ravel, Nat.add_comm]
+
+/-- the indexed elements of every block (running offsets) -/
+def cands : Nat → List (List Int) → List (List (Int × Nat))
+  | _, [] => []
+  | off, b :: bs => enumFrom off b :: cands (off + b.length) bs
+
+/-- the per-block partial results `arg_chunk` produces (blocks are non-empty, see `argChunk1_isSome`) -/
+def blockParts (lt : Int → Int → Bool) : Nat → List (List Int) → List (Int × Nat)
+  | _, [] => []
+  | off, b :: bs => (argChunk1 lt off b).getD (0, 0) :: blockParts lt (off + b.length) bs
+
+theorem argChunk1_isSome (lt : Int → Int → Bool) (off : Nat) (b : List Int) (h : b ≠ []) :
+    (argChunk1 lt off b).isSome = true := by
+  cases b with
+  | nil => exact absurd rfl h
+  | cons x xs => simp [argChunk1, argBest]
+
+theorem blockParts_eq (lt : Int → Int → Bool) (off : Nat) (blocks : List (List Int)) :
+    blockParts lt off blocks = (cands off blocks).map (argComb lt) := by
+  induction blocks generalizing off with
+  | nil => rfl
+  | cons b bs ih => simp only [blockParts, cands, List.map_cons, ih, argChunk1_eq, argComb]
+
+theorem cands_flatten (off : Nat) (blocks : List (List Int)) :
+    (cands off blocks).flatten = enumFrom off blocks.flatten := by
+  induction blocks generalizing off with
+  | nil => rfl
+  | cons b bs ih => simp only [cands, List.flatten_cons, ih, enumFrom_append]
+
+theorem cands_ne_nil (off : Nat) (blocks : List (List Int)) (h : ∀ b ∈ blocks, b ≠ []) :
+    ∀ g ∈ cands off blocks, g ≠ [] := by
+  induction blocks generalizing off with
+  | nil => simp [cands]
+  | cons b bs ih =>
+    intro g hg
+    simp only [cands, List.mem_cons] at hg
+    rcases hg with rfl | hg
+    · have := h b (by simp)
+      cases b with
+      | nil => exact absurd rfl this
+      | cons x xs => simp [enumFrom]
+    · exact ih (off + b.length) (fun x hx => h x (by simp [hx])) g hg
+
+theorem length_cands (off : Nat) (blocks : List (List Int)) : (cands off blocks).length = blocks.length := by
+  induction blocks generalizing off with
+  | nil => rfl
+  | cons b bs ih => simp [cands, ih]
+
+/-- generic form: any `lt` whose merge is associative -/
+theorem argreduce_den (lt : Int → Int → Bool) (hH : Hom (argComb lt) (argComb lt))
+    (k depth : Nat) (hk : k ≠ 0) (blocks : List (List Int)) (hne : blocks ≠ [])
+    (hnb : ∀ b ∈ blocks, b ≠ []) (hd : blocks.length ≤ k ^ depth) :
+    treeReduce (argComb lt) (argComb lt) k depth (blockParts lt 0 blocks)
+      = [(argBest lt blocks.flatten).getD (0, 0)] := by
+  have hcne : cands 0 blocks ≠ [] := by
+    intro h; have := congrArg List.length h; rw [length_cands] at this; cases blocks <;> simp_all
+  rw [blockParts_eq, treeReduce_eq_fold _ _ hH hH k depth hk _ (by simpa using hcne)
+    (by rw [List.length_map, length_cands]; exact hd)]
+  rw [hH _ hcne (cands_ne_nil 0 blocks hnb), cands_flatten, argBest_eq]
+  rfl
+
+/-- **argreduce_den** (1-d / raveled order): for every blocking into non-empty blocks, every `k` and valid
+    depth, `argmin` returns the value and the **first** global index of the minimum — `np.argmin` of the
+    concatenated data; likewise `argmax`. -/
+theorem argmin_eq_numpy (k depth : Nat) (hk : k ≠ 0) (blocks : List (List Int)) (hne : blocks ≠ [])
+    (hnb : ∀ b ∈ blocks, b ≠ []) (hd : blocks.length ≤ k ^ depth) :
+    treeReduce (argComb ltMin) (argComb ltMin) k depth (blockParts ltMin 0 blocks)
+      = [(argBest ltMin blocks.flatten).getD (0, 0)] :=
+  argreduce_den ltMin hom_argComb_min k depth hk blocks hne hnb hd
+
+theorem argmax_eq_numpy (k depth : Nat) (hk : k ≠ 0) (blocks : List (List Int)) (hne : blocks ≠ [])
+    (hnb : ∀ b ∈ blocks, b ≠ []) (hd : blocks.length ≤ k ^ depth) :
+    treeReduce (argComb ltMax) (argComb ltMax) k depth (blockParts ltMax 0 blocks)
+      = [(argBest ltMax blocks.flatten).getD (0, 0)] :=
+  argreduce_den ltMax hom_argComb_max k depth hk blocks hne hnb hd
+
+/-- `argBest` really is "first index of the minimum": ties keep the earlier index -/
+example : argBest ltMin [3, 1, 2, 1] = some (1, 1) ∧ argBest ltMax [3, 1, 3] = some (3, 0) := by decide
 
 /-! ## K2: cumulative reductions -/
 section scans
